@@ -83,6 +83,12 @@ def main(argv):
             from . import designfam
 
             designfam.attach(rep, PROP, args.tier, d, args.jobs)
+            from . import pipefam
+
+            try:
+                pipefam.attach(rep, args.tier, args.seed, d, args.jobs)
+            except tlc.MachineryError as e:
+                rep.add_drift({"pipeline_conformance_run_failed": str(e)[:300]})
     finally:
         tlc.cleanup(d)
     states = gen = 0
